@@ -22,6 +22,7 @@ import (
 	"encoding/hex"
 	"fmt"
 	"math/big"
+	"math/rand"
 	"reflect"
 	"runtime/debug"
 	"sort"
@@ -36,7 +37,6 @@ import (
 	"github.com/ethereum/go-ethereum/core/vm"
 
 	"github.com/functionx/fx-core/v8/contract"
-	"github.com/functionx/fx-core/v8/testutil/helpers"
 	fxtypes "github.com/functionx/fx-core/v8/types"
 	crosschaintypes "github.com/functionx/fx-core/v8/x/crosschain/types"
 	fxevmtypes "github.com/functionx/fx-core/v8/x/evm/types"
@@ -82,6 +82,13 @@ type pcWorld struct {
 }
 
 func pow2(n uint) *big.Int { return new(big.Int).Lsh(big.NewInt(1), n) }
+
+// rndAddr: an address drawn from the seeded generator (helpers.Gen* use crypto/rand)
+func rndAddr(rng *rand.Rand) common.Address {
+	var a common.Address
+	rng.Read(a[:])
+	return a
+}
 
 // hostile numbers (uint256 range)
 func hostileNums() []*big.Int {
@@ -133,7 +140,7 @@ func (p *pcWorld) validVector(pc string, m abi.Method) *pcVec {
 			case "_val", "_valSrc", "_valDst":
 				a = val()
 			case "_receipt":
-				a = helpers.GenExternalAddr(chain)
+				a = crosschaintypes.ExternalAddrToStr(chain, rndAddr(rng).Bytes())
 			default:
 				a = "memo"
 			}
@@ -235,11 +242,11 @@ func (p *pcWorld) twist(v *pcVec) {
 	switch in.Type.T {
 	case abi.StringTy:
 		s := hx.Pick(rng, []string{"", "nope", "tron", "chain/eth", "ETH", " eth", "eth\x00", "\xff\xfe", strings.Repeat("x", 3000), "module/evm", "ibc/0/px",
-			sdk.ValAddress(helpers.GenAccAddress()).String(), helpers.GenAccAddress().String(), helpers.GenHexAddress().String(), "0x", fxtypes.DefaultDenom})
+			sdk.ValAddress(rndAddr(rng).Bytes()).String(), sdk.AccAddress(rndAddr(rng).Bytes()).String(), rndAddr(rng).Hex(), "0x", fxtypes.DefaultDenom})
 		v.args[i] = s
 		v.class = append(v.class, fmt.Sprintf("%s=%q", name, short([]byte(s))[:min(16, len(short([]byte(s))))]))
 	case abi.AddressTy:
-		a := hx.Pick(rng, []common.Address{{}, helpers.GenHexAddress(), crosschaintypes.GetAddress(), fxstakingtypes.GetAddress(), p.w.Bad, bridgex.Erc20ModuleAddr(),
+		a := hx.Pick(rng, []common.Address{{}, rndAddr(rng), crosschaintypes.GetAddress(), fxstakingtypes.GetAddress(), p.w.Bad, bridgex.Erc20ModuleAddr(),
 			common.HexToAddress("0xffffffffffffffffffffffffffffffffffffffff")})
 		v.args[i] = a
 		v.class = append(v.class, name+"="+a.Hex()[:10])
@@ -290,12 +297,138 @@ func (p *pcWorld) twist(v *pcVec) {
 			} else if n > 0 && in.Type.Elem.T == abi.AddressTy {
 				cp := reflect.MakeSlice(rv.Type(), n, n)
 				reflect.Copy(cp, rv)
-				cp.Index(rng.Intn(n)).Set(reflect.ValueOf(hx.Pick(rng, []common.Address{{}, helpers.GenHexAddress(), p.w.Bad, cp.Index(0).Interface().(common.Address)})))
+				cp.Index(rng.Intn(n)).Set(reflect.ValueOf(hx.Pick(rng, []common.Address{{}, rndAddr(rng), p.w.Bad, cp.Index(0).Interface().(common.Address)})))
 				v.args[i] = cp.Interface()
 				v.class = append(v.class, name+" hostile element")
 			}
 		}
 	}
+}
+
+
+// pcTwist is one named hostile change of an argument vector
+type pcTwist struct {
+	label string
+	apply func(v *pcVec)
+}
+
+var hostileChainStrings = []string{"", "nope", "tron", "chain/eth", "ETH", " eth", "eth\x00", "\xff\xfe", "module/evm", "ibc/0/px", "0x", "e", "a/b", strings.Repeat("x", 33), strings.Repeat("x", 34), strings.Repeat("x", 3000)}
+
+// enumTwists: the boundary classes that are applied on EVERY run (one at a time to a fresh valid vector, and the pair
+// classes that need two cooperating arguments): every hostile number for every integer input, every pair of integer inputs
+// both at / around the top of the uint256 range (sums that need 257 bits), every array emptied / shortened / lengthened,
+// every pair of arrays with every combination of lengths 0..2, every hostile text / address / target, msg.value classes
+func (p *pcWorld) enumTwists(m abi.Method) []pcTwist {
+	var out []pcTwist
+	set := func(i int, label string, val func() any) {
+		out = append(out, pcTwist{label, func(v *pcVec) { v.args[i] = val(); v.class = append(v.class, label) }})
+	}
+	max := new(big.Int).Sub(pow2(256), big.NewInt(1))
+	var ints, slices []int
+	for i, in := range m.Inputs {
+		i, in := i, in
+		switch in.Type.T {
+		case abi.UintTy:
+			if in.Type.Size == 8 {
+				for _, x := range []uint8{0, 1, 2, 255} {
+					x := x
+					set(i, fmt.Sprintf("%s=%d", in.Name, x), func() any { return x })
+				}
+				break
+			}
+			ints = append(ints, i)
+			for _, n := range hostileNums() {
+				n := n
+				set(i, fmt.Sprintf("%s=2^%d-ish", in.Name, n.BitLen()), func() any { return new(big.Int).Set(n) })
+			}
+		case abi.StringTy:
+			for _, str := range hostileChainStrings {
+				str := str
+				set(i, fmt.Sprintf("%s=%q", in.Name, str[:min(len(str), 10)]), func() any { return str })
+			}
+			set(i, in.Name+"=some valoper", func() any { return sdk.ValAddress(rndAddr(p.e.rng).Bytes()).String() })
+			set(i, in.Name+"=some account", func() any { return sdk.AccAddress(rndAddr(p.e.rng).Bytes()).String() })
+			set(i, in.Name+"=some hex address", func() any { return rndAddr(p.e.rng).Hex() })
+		case abi.AddressTy:
+			for _, a := range []common.Address{{}, crosschaintypes.GetAddress(), fxstakingtypes.GetAddress(), p.w.Bad, bridgex.Erc20ModuleAddr(), common.HexToAddress("0xffffffffffffffffffffffffffffffffffffffff")} {
+				a := a
+				set(i, in.Name+"="+a.Hex()[:10], func() any { return a })
+			}
+			set(i, in.Name+"=random", func() any { return rndAddr(p.e.rng) })
+		case abi.FixedBytesTy:
+			for _, t := range []string{"", "nope", "tron", "chain/gravity", "ibc/0/px", "px/transfer/channel-0", "module/evm", "\xff", "bsc", strings.Repeat("z", 32)} {
+				t := t
+				set(i, fmt.Sprintf("%s=%q", in.Name, t[:min(len(t), 10)]), func() any { return b32(t) })
+			}
+		case abi.BytesTy:
+			for _, l := range []int{0, 1, 32, 33, 5000} {
+				l := l
+				set(i, fmt.Sprintf("%s=%dB", in.Name, l), func() any { b := make([]byte, l); p.e.rng.Read(b); return b })
+			}
+		case abi.SliceTy:
+			slices = append(slices, i)
+			for _, l := range []int{0, 1, 2, 3, 40} {
+				l := l
+				set(i, fmt.Sprintf("len(%s)=%d", in.Name, l), func() any { return p.sliceOf(in.Type, l) })
+			}
+			if in.Type.Elem.T == abi.UintTy {
+				for _, n := range []*big.Int{big.NewInt(0), pow2(255), max} {
+					n := n
+					set(i, fmt.Sprintf("%s=[2^%d-ish ×2]", in.Name, n.BitLen()), func() any { return []*big.Int{new(big.Int).Set(n), new(big.Int).Set(n)} })
+				}
+			}
+			if in.Type.Elem.T == abi.AddressTy {
+				set(i, in.Name+"=[same token twice]", func() any { g := p.w.Groups[p.e.rng.Intn(len(p.w.Groups))].Erc20; return []common.Address{g, g} })
+				set(i, in.Name+"=[zero address]", func() any { return []common.Address{{}} })
+			}
+		}
+	}
+	// two integer inputs that a method may add up
+	for a := 0; a < len(ints); a++ {
+		for b := a + 1; b < len(ints); b++ {
+			ia, ib := ints[a], ints[b]
+			for _, pr := range [][2]*big.Int{{max, max}, {pow2(255), pow2(255)}, {max, big.NewInt(1)}, {big.NewInt(3), new(big.Int).Sub(max, big.NewInt(1))}} {
+				pr := pr
+				label := fmt.Sprintf("%s=2^%d-ish & %s=2^%d-ish", m.Inputs[ia].Name, pr[0].BitLen(), m.Inputs[ib].Name, pr[1].BitLen())
+				out = append(out, pcTwist{label, func(v *pcVec) {
+					v.args[ia], v.args[ib] = new(big.Int).Set(pr[0]), new(big.Int).Set(pr[1])
+					v.class = append(v.class, label)
+				}})
+			}
+		}
+	}
+	// two array inputs: every combination of lengths
+	for a := 0; a < len(slices); a++ {
+		for b := a + 1; b < len(slices); b++ {
+			ia, ib := slices[a], slices[b]
+			for la := 0; la <= 2; la++ {
+				for lb := 0; lb <= 2; lb++ {
+					la, lb := la, lb
+					label := fmt.Sprintf("len(%s)=%d & len(%s)=%d", m.Inputs[ia].Name, la, m.Inputs[ib].Name, lb)
+					out = append(out, pcTwist{label, func(v *pcVec) {
+						v.args[ia], v.args[ib] = p.sliceOf(m.Inputs[ia].Type, la), p.sliceOf(m.Inputs[ib].Type, lb)
+						v.class = append(v.class, label)
+					}})
+				}
+			}
+		}
+	}
+	for _, val := range []*big.Int{big.NewInt(1), big.NewInt(7), pow2(64), max} {
+		val := val
+		out = append(out, pcTwist{"msg.value=" + val.String()[:min(len(val.String()), 8)], func(v *pcVec) {
+			v.value = val
+			v.class = append(v.class, "msg.value="+val.String()[:min(len(val.String()), 8)])
+		}})
+	}
+	return out
+}
+
+func (p *pcWorld) sliceOf(t abi.Type, n int) any {
+	sl := reflect.MakeSlice(t.GetType(), 0, n)
+	for i := 0; i < n; i++ {
+		sl = reflect.Append(sl, reflect.ValueOf(p.elem(t.Elem)))
+	}
+	return sl.Interface()
 }
 
 func (p *pcWorld) elem(t *abi.Type) any {
@@ -335,7 +468,7 @@ func (p *pcWorld) features(v *pcVec, target any) string {
 		switch a := v.args[i].(type) {
 		case string:
 			fs = append(fs, fmt.Sprintf("empty:%s=%d", n, b2i(a == "")))
-			fs = append(fs, fmt.Sprintf("ext:ValidateModuleName:%s=%d", n, b2i(crosschaintypes.ValidateModuleName(a) != nil)))
+			fs = append(fs, fmt.Sprintf("str:%s=%s", n, hx.HexS(a))) // ValidateModuleName is computed by the model from the bytes
 			_, err := sdk.ValAddressFromBech32(a)
 			fs = append(fs, fmt.Sprintf("ext:ValAddressFromBech32:%s=%d", n, b2i(err != nil)))
 		case common.Address:
@@ -526,10 +659,11 @@ func (e *env) precompileRunSweep(t *testing.T) {
 		abi  abi.ABI
 	}
 	pcs := []pc{{"crosschain", crosschaintypes.GetAddress(), crosschaintypes.GetABI()}, {"staking", fxstakingtypes.GetAddress(), fxstakingtypes.GetABI()}}
-	perMethod := hx.N(90, 1200)
+	perMethod := hx.N(40, 1200)
 	type job struct {
-		p pc
-		m abi.Method
+		p  pc
+		m  abi.Method
+		tw *pcTwist // nil = random twists
 	}
 	var jobs []job
 	for _, c := range pcs {
@@ -543,8 +677,13 @@ func (e *env) precompileRunSweep(t *testing.T) {
 				e.out.Violate("harness: precompile method " + c.name + "." + n + " of the ABI has no args struct in the harness table (new method? add it to argsOf)")
 				continue
 			}
+			m := c.abi.Methods[n]
+			for _, tw := range p.enumTwists(m) {
+				tw := tw
+				jobs = append(jobs, job{c, m, &tw})
+			}
 			for i := 0; i < perMethod; i++ {
-				jobs = append(jobs, job{c, c.abi.Methods[n]})
+				jobs = append(jobs, job{c, m, nil})
 			}
 		}
 	}
@@ -556,12 +695,18 @@ func (e *env) precompileRunSweep(t *testing.T) {
 			p.pending()
 		}
 		v := p.validVector(j.p.name, j.m)
-		nt := hx.Pick(e.rng, []int{0, 1, 1, 1, 2, 3})
-		for k := 0; k < nt; k++ {
-			p.twist(v)
-		}
-		if nt == 0 {
-			v.class = append(v.class, "valid in the current world")
+		nt := 1
+		if j.tw != nil {
+			j.tw.apply(v)
+			e.out.Count("pcrun-enumerated-boundary")
+		} else {
+			nt = hx.Pick(e.rng, []int{0, 1, 1, 2, 3})
+			for k := 0; k < nt; k++ {
+				p.twist(v)
+			}
+			if nt == 0 {
+				v.class = append(v.class, "valid in the current world")
+			}
 		}
 		packed, err := j.m.Inputs.Pack(v.args...)
 		if err != nil {
